@@ -19,6 +19,7 @@ import (
 	"encoding/json"
 	"fmt"
 	"io"
+	"math"
 	"os"
 	"os/exec"
 	"path/filepath"
@@ -356,6 +357,13 @@ func c13CurID(t gdbi.Traveler) int {
 	return c13ID(cur.ID)
 }
 
+// c13Bad: the item value that stands for a record the serializer cannot encode (a traveler whose
+// data holds NaN: json.Marshal fails) or decode (a truncated line).  The combinators forward an
+// empty record IN ITS PLACE (a nil byte slice / an empty traveler): order and multiplicity of the
+// stream are those of the input, which is what the op's "in" list says with this value at the
+// position of the bad record.
+const c13Bad = 999999999
+
 func c13StreamObs(out []int, c *c13Ctx, early bool) map[string]interface{} {
 	return map[string]interface{}{"out": segs(out), "closed": c.closedYet(), "early": early}
 }
@@ -375,7 +383,11 @@ func c13Marshal(c *c13Ctx, op map[string]interface{}) map[string]interface{} {
 			c.lat.consumerDelay(i)
 			t := &gdbi.BaseTraveler{}
 			if err := json.Unmarshal(b, t); err != nil || t.Current == nil {
-				out = append(out, -1)
+				if len(b) == 0 {
+					out = append(out, c13Bad) // the empty record forwarded for an unencodable traveler
+				} else {
+					out = append(out, -1)
+				}
 			} else {
 				out = append(out, c13ID(t.Current.ID))
 			}
@@ -389,6 +401,9 @@ func c13Marshal(c *c13Ctx, op map[string]interface{}) map[string]interface{} {
 		var d map[string]interface{}
 		if big != nil && i%w == 0 {
 			d = big
+		}
+		if v == c13Bad {
+			d = map[string]interface{}{"x": math.NaN()}
 		}
 		in <- c13Trav(v, d)
 	}
@@ -410,7 +425,11 @@ func c13Unmarshal(c *c13Ctx, op map[string]interface{}) map[string]interface{} {
 		i := 0
 		for t := range outc {
 			c.lat.consumerDelay(i)
-			out = append(out, c13CurID(t))
+			if t != nil && t.GetCurrent() == nil {
+				out = append(out, c13Bad) // the empty traveler forwarded for an undecodable line
+			} else {
+				out = append(out, c13CurID(t))
+			}
 			i++
 		}
 		c.markClosed()
@@ -421,6 +440,9 @@ func c13Unmarshal(c *c13Ctx, op map[string]interface{}) map[string]interface{} {
 		b, err := json.Marshal(c13Trav(v, nil))
 		if err != nil {
 			panic(err)
+		}
+		if v == c13Bad {
+			b = b[:len(b)/2] // a truncated line
 		}
 		in <- b
 	}
@@ -616,6 +638,11 @@ func c13Queue(c *c13Ctx, op map[string]interface{}) map[string]interface{} {
 	q := queue.New()
 	out := make([]int, 0, len(items))
 	done := make(chan struct{})
+	// "pingpong": item i+1 is sent only after item i has come out — one element at a time, each
+	// arriving at an EMPTY queue whose output side has just looked (a notification lost in that
+	// window leaves the element inside for ever: nothing else will arrive to flush it)
+	pingpong := c.lat.name == "pingpong"
+	var taken int64
 	go func() {
 		defer c.guard()
 		i := 0
@@ -623,6 +650,7 @@ func c13Queue(c *c13Ctx, op map[string]interface{}) map[string]interface{} {
 			c.lat.consumerDelay(i)
 			out = append(out, c13CurID(t))
 			i++
+			atomic.StoreInt64(&taken, int64(i))
 		}
 		c.markClosed()
 		close(done)
@@ -630,6 +658,11 @@ func c13Queue(c *c13Ctx, op map[string]interface{}) map[string]interface{} {
 	in := q.GetInput()
 	for i, v := range items {
 		c.lat.producerDelay(i)
+		if pingpong {
+			for atomic.LoadInt64(&taken) < int64(i) {
+				runtime.Gosched()
+			}
+		}
 		in <- c13Trav(v, nil)
 	}
 	early := c.closedYet()
@@ -1049,14 +1082,32 @@ func (g *c13Gen) input(n int) [][]int {
 	return segs(xs)
 }
 
+// withBad replaces one to three items of the input by c13Bad (a record that cannot be encoded /
+// decoded), in one case of three with more than w items after the first of them.
+func (g *c13Gen) withBad(in [][]int, w int) [][]int {
+	rng := g.r.Rng
+	xs := unsegs(in)
+	if len(xs) < 2 || rng.Intn(3) != 0 {
+		return in
+	}
+	g.r.Count("bad-record")
+	for k := 1 + rng.Intn(3); k > 0; k-- {
+		xs[rng.Intn(len(xs))] = c13Bad
+	}
+	if len(xs) > 2*w+2 {
+		xs[rng.Intn(len(xs)-2*w)] = c13Bad
+	}
+	return segs(xs)
+}
+
 func (g *c13Gen) marshal(w, n, big int, lat string, procs int) {
 	g.r.Count("w:" + strconv.Itoa(w))
-	g.add(map[string]interface{}{"op": "marshal", "w": w, "in": g.input(n), "big": big}, lat, procs, fmt.Sprintf("w%d/b%d", w, big))
+	g.add(map[string]interface{}{"op": "marshal", "w": w, "in": g.withBad(g.input(n), w), "big": big}, lat, procs, fmt.Sprintf("w%d/b%d", w, big))
 }
 
 func (g *c13Gen) unmarshal(w, n int, lat string, procs int) {
 	g.r.Count("w:" + strconv.Itoa(w))
-	g.add(map[string]interface{}{"op": "unmarshal", "w": w, "in": g.input(n)}, lat, procs, fmt.Sprintf("w%d", w))
+	g.add(map[string]interface{}{"op": "unmarshal", "w": w, "in": g.withBad(g.input(n), w)}, lat, procs, fmt.Sprintf("w%d", w))
 }
 
 // pipes: which pipeline each of the n inputs goes to.
@@ -1300,9 +1351,15 @@ func C13Gen(r *Run) {
 			g.batcher(Pick(rng, []int{10, 100, 1000}), 40000+rng.Intn(40001), "timed", Pick(rng, c13TimedLats), p)
 			g.dual(big(), rng.Intn(4), Pick(rng, c13Lats), p)
 			g.queue(big(), Pick(rng, c13Lats), p)
+			if p >= 4 {
+				g.queue(150000, "pingpong", p)
+			}
 		}
 	} else {
 		n := 20000
+		for _, p := range []int{4, 8, 8, 16} {
+			g.queue(30000, "pingpong", p) // ~3 s each on the unchanged tree (busy-waiting output side)
+		}
 		g.marshal(4, n, 0, "rand", 4)
 		g.marshal(3, n, 0, "slowcons", 1)
 		g.unmarshal(4, n, "rand", 2)
